@@ -42,7 +42,9 @@ class _StubGmsh:
         self.mesh = self
 
     def getElementProperties(self, gmshId):
-        return ("stub", self.plan[gmshId][0], 1, 0, [], 0)
+        # (name, dim, order, number of nodes, local coordinates, number of primary nodes)
+        nv = {1: 2, 2: 3, 3: 4, 9: 3, 8: 2}.get(gmshId, 0)
+        return ("stub", self.plan[gmshId][0], 1, 0, [], nv)
 
     def getEntities(self, dim):
         out = []
@@ -111,6 +113,9 @@ SMALL = {
     "chain5": dict(types=[(1, 1, [[0, 1], [1, 2], [2, 3], [3, 4], [4, 5]])]),
     "quad2x2": dict(types=[(3, 2, [[0, 1, 4, 3], [1, 2, 5, 4], [3, 4, 7, 6], [4, 5, 8, 7]])]),
     "fan6": dict(types=[(2, 2, [[0, 1, 2], [0, 2, 3], [0, 3, 4], [0, 4, 5], [0, 5, 6], [0, 6, 1]])]),
+    # second-order triangles (gmsh id 9): elements that touch through a mid-edge node only matter for the ghost layer
+    "tri6x3": dict(types=[(9, 2, [[0, 1, 2, 3, 4, 5], [1, 6, 2, 7, 8, 4], [2, 6, 9, 8, 10, 11]])]),
+    "tri6x5": dict(types=[(9, 2, [[0, 1, 2, 3, 4, 5], [1, 6, 2, 7, 8, 4], [2, 6, 9, 8, 10, 11], [0, 2, 12, 5, 13, 14], [1, 15, 6, 16, 17, 7]])]),
     # a mesh MIXING two element types of the main dimension (triangles are processed before the quadrangle, as gmsh orders the types)
     "tri2+quad1": dict(types=[(2, 2, [[1, 2, 4], [2, 5, 4]]), (3, 2, [[0, 1, 4, 3]])], mixed=True),
     "tri3+quad2": dict(types=[(2, 2, [[2, 3, 6], [3, 7, 6], [6, 7, 10]]), (3, 2, [[0, 1, 5, 4], [1, 2, 6, 5]])], mixed=True),
